@@ -460,15 +460,23 @@ func init() {
 		for _, e := range []int{-2, 0, 3} {
 			vals = append(vals, finDec(false, bigInt(0), e), finDec(true, bigInt(0), e))
 		}
-		for _, f := range [][2]int{{1, 0}, {2, 0}, {3, 0}, {5, -1}, {15, -1}, {10, 0}, {7, 0}, {1, 2}, {999, -3}} {
+		for _, f := range [][2]int{{1, 0}, {2, 0}, {3, 0}, {5, -1}, {15, -1}, {10, 0}, {7, 0}, {1, 2}, {999, -3}, {10, -1}, {100, -2}} {
 			vals = append(vals, finDec(false, bigInt(int64(f[0])), f[1]), finDec(true, bigInt(int64(f[0])), f[1]))
+		}
+		// zeros and a one whose coefficient lives in heap-backed storage (a BigInt that was once wider than 128 bits)
+		for _, n := range []bool{false, true} {
+			z := finDec(n, bigInt(0), -1)
+			z.Hp = true
+			o := finDec(n, bigInt(1), 0)
+			o.Hp = true
+			vals = append(vals, z, o)
 		}
 		type rg struct{ p, emin, emax int }
 		var ctxs []Ctx
-		for i, r := range []rg{{3, -2, 3}, {7, -100, 100}, {1, 0, 3}} {
+		for i, r := range []rg{{3, -2, 3}, {7, -100, 100}, {1, 0, 3}, {0, -2, 3}} {
 			for _, m := range append([]string{""}, modeNames...) {
 				ctxs = append(ctxs, Ctx{P: r.p, Emin: r.emin, Emax: r.emax, R: m, T: 0})
-				if i == 0 || g.thorough() {
+				if i == 0 || i == 3 || g.thorough() {
 					ctxs = append(ctxs, Ctx{P: r.p, Emin: r.emin, Emax: r.emax, R: m, T: 0x7af}) // DefaultTraps
 				}
 			}
@@ -479,6 +487,9 @@ func init() {
 		for _, c := range ctxs {
 			for _, x := range vals {
 				for _, op := range un {
+					if c.P == 0 && x.F == 0 && (op == "ln" || op == "log10" || op == "exp") { // no meaning with rounding disabled
+						continue
+					}
 					if op == "quantize" {
 						for _, q := range []int{-1, 0, 2} {
 							g.emit(mkA(op, c, x, x, q, "", fresh), op)
@@ -489,6 +500,9 @@ func init() {
 				}
 				for _, y := range vals {
 					for _, op := range bin {
+						if c.P == 0 && x.F == 0 && y.F == 0 && op == "pow" {
+							continue
+						}
 						g.emit(mkA(op, c, x, y, 0, "", fresh), op)
 						if (x.F >= 2 || y.F >= 2) && c.T == 0 { // a NaN operand that is also the destination
 							g.emit(mkA(op, c, x, y, 0, "dx", fresh), op+"/alias")
